@@ -330,3 +330,151 @@ Proof.
   split; [vm_compute; reflexivity|]. split; [repeat (constructor; [vm_compute; discriminate|]); constructor|].
   split; vm_compute; reflexivity.
 Qed.
+
+(* ================================================================================================ *)
+(* TRANSLATOR TIE.  coq/gen/CaptureGen.v is regenerated on every run from the current source of psiaudio/pipeline.py by
+   translate/pycapture2coq.py (fail closed, self-tested against the real coroutines):
+     capture_epoch_init / capture_epoch_step : the coroutine capture_epoch as locals-before-the-loop + one
+                                               `slb, data = (yield)` iteration -> (state, what target received, `break`)
+     extract_epochs_lookback                 : what one send does to tlb and prior_samples in extract_epochs (append,
+                                               advance, the pruning loop; None = IndexError)
+     extract_epochs_new_capture              : the capture_epoch(...) call of extract_epochs
+   Vocabulary (Extract/ProofsTie.v): abs st = the model capture a coroutine state stands for (pieces joined); rep c = a
+   coroutine state for a model capture; wf_ce st = auto_send is False; view = a generated step result as Model.cres;
+   source_capture_run = sends until `break`.  The theorems below say that the generated definitions compute what
+   Extract/Model.v computes, so every theorem above is a theorem about what the source says now. *)
+From PV Require Import gen.CaptureGen Extract.ProofsTie.
+
+(* generated step = model step: every state with auto_send = False, every slb, every chunk *)
+Theorem C05_source_step : forall st slb data, wf_ce st ->
+  view (capture_epoch_step st slb data) = Some (cap_send (abs st) slb data).
+Proof. exact step_is_cap_send. Qed.
+Print Assumptions C05_source_step.
+
+(* ... and from the model's side: every capture of the model is a state of the coroutine, stepping alike *)
+Theorem C05_source_step_onto : forall c slb data,
+  abs (rep c) = c /\ wf_ce (rep c) /\ view (capture_epoch_step (rep c) slb data) = Some (cap_send c slb data).
+Proof. exact (fun c slb data => conj (abs_rep c) (conj (wf_rep c) (cap_send_is_step c slb data))). Qed.
+Print Assumptions C05_source_step_onto.
+
+(* a step keeps auto_send, the start sample and the metadata identity; the "missed" stub carries what missed_item carries *)
+Theorem C05_source_step_frame : forall st slb data,
+  (wf_ce st -> wf_ce (fst (fst (capture_epoch_step st slb data)))) /\
+  (forall s0 md, snd (fst (capture_epoch_step st slb data)) = Some (OMissed s0 md) ->
+     s0 = c_s0 (abs st) /\ md = c_rid (abs st) /\ cap_send (abs st) slb data = CMissed).
+Proof. exact (fun st slb data => conj (step_wf st slb data) (step_missed_stub st slb data)). Qed.
+Print Assumptions C05_source_step_frame.
+
+(* the epoch extract_epochs appends when a capture finishes, read off the generated step, is the model's item *)
+Theorem C05_source_item : forall k st slb data st' o, wf_ce st ->
+  capture_epoch_step st slb data = (st', Some o, true) ->
+  match cap_send (abs st) slb data with
+  | CDone d => source_item k st o = done_item k (abs st) d
+  | CMissed => source_item k st o = missed_item k (abs st)
+  | CCont _ => False
+  end.
+Proof. exact step_item. Qed.
+Print Assumptions C05_source_item.
+
+(* the whole coroutine: created with the source's default for auto_send and sent anything whatsoever *)
+Theorem C05_source_run : forall k lo n rid sends,
+  source_capture_run (capture_epoch_init lo n rid capture_epoch_default_auto_send) sends =
+  capture_run (new_capture (mkreq k lo n rid)) sends.
+Proof. exact source_run_init. Qed.
+Print Assumptions C05_source_run.
+
+(* the hypothesis is needed: with auto_send = True a piece is handed over and the coroutine goes on *)
+Theorem C05_source_step_refuted : exists st slb data,
+  ce_auto_send st = true /\
+  view (capture_epoch_step st slb data) <> Some (cap_send (abs st) slb data) /\
+  capture_epoch_step st slb data =
+    ({| ce_epoch_s0 := 4; ce_epoch_samples := 4; ce_info := 0; ce_auto_send := true; ce_accumulated_data := [];
+        ce_current_s0 := 5; ce_md := 0 |}, Some (OTarget [14]), false).
+Proof. exact step_is_cap_send_refuted. Qed.
+Print Assumptions C05_source_step_refuted.
+
+(* C05_capture_standalone / _any_chunking / _chunking_independent / _missed over the GENERATED coroutine *)
+Theorem C05_source_capture_standalone : forall rid lo n s0 cs, 0 <= n -> s0 <= lo ->
+  source_capture_run (capture_epoch_init lo n rid capture_epoch_default_auto_send) (tag s0 cs) =
+  cap_spec s0 (lo + n) (sl (concat cs) (lo - s0) n) cs.
+Proof. exact source_capture_standalone. Qed.
+Print Assumptions C05_source_capture_standalone.
+
+Theorem C05_source_capture_any_chunking : forall rid lo n s0 cs, 0 <= n -> s0 <= lo ->
+  let out := source_capture_run (capture_epoch_init lo n rid capture_epoch_default_auto_send) (tag s0 cs) in
+  let d := sl (concat cs) (lo - s0) n in
+  (s0 + zlen (concat cs) < lo + n -> out = repeat CNone (length cs)) /\
+  (lo + n <= s0 + zlen (concat cs) -> cs <> [] ->
+   exists j, (j < length cs)%nat /\ out = repeat CNone j ++ [CData d] /\ zlen d = n /\
+             lo + n <= s0 + zlen (concat (firstn (S j) cs)) /\
+             (forall i, (i < j)%nat -> s0 + zlen (concat (firstn (S i) cs)) < lo + n)).
+Proof. exact source_capture_any_chunking. Qed.
+Print Assumptions C05_source_capture_any_chunking.
+
+Theorem C05_source_capture_chunking_independent : forall rid lo n s0 cs1 cs2, 0 <= n -> s0 <= lo ->
+  concat cs1 = concat cs2 -> lo + n <= s0 + zlen (concat cs1) -> cs1 <> [] -> cs2 <> [] ->
+  exists j1 j2,
+    source_capture_run (capture_epoch_init lo n rid capture_epoch_default_auto_send) (tag s0 cs1) =
+      repeat CNone j1 ++ [CData (sl (concat cs1) (lo - s0) n)] /\
+    source_capture_run (capture_epoch_init lo n rid capture_epoch_default_auto_send) (tag s0 cs2) =
+      repeat CNone j2 ++ [CData (sl (concat cs1) (lo - s0) n)].
+Proof. exact source_capture_chunking_independent. Qed.
+Print Assumptions C05_source_capture_chunking_independent.
+
+Theorem C05_source_capture_missed : forall rid lo n s0 cs, 0 <= n ->
+  (In CMiss (source_capture_run (capture_epoch_init lo n rid capture_epoch_default_auto_send) (tag s0 cs)) <->
+   cs <> [] /\ lo < s0).
+Proof. exact source_capture_missed. Qed.
+Print Assumptions C05_source_capture_missed.
+
+(* extract_epochs: after a send that does not raise, tlb and prior_samples are what the generated look-back slice
+   computes (any look-back B >= 0, any fuel above the number of buffered chunks) ... *)
+Theorem C05_source_lookback : forall B k st f st' b cb fuel, 0 <= B -> (length (prior st) + 1 < fuel)%nat ->
+  feed_step B k st f = (st', FOut b cb) ->
+  extract_epochs_lookback fuel (tlb st) (prior st) B (f_chunk f) = Some (tlb st', prior st').
+Proof. exact source_lookback_feed_step. Qed.
+Print Assumptions C05_source_lookback.
+
+(* ... namely the chunk appended, the counter advanced, and Model.prune; the source's pruning loop raises IndexError
+   exactly when Model.prune would empty the buffer, which B >= 0 excludes *)
+Theorem C05_source_prune : forall B T pr data fuel,
+  (0 <= B -> (length pr + 1 < fuel)%nat ->
+   extract_epochs_lookback fuel T pr B data = Some (T + zlen data, prune B (T + zlen data) (pr ++ [(T, data)]))) /\
+  ((length pr < fuel)%nat -> prune B T pr <> [] -> extract_epochs_prune fuel T pr B = Some (prune B T pr)) /\
+  (prune B T pr = [] -> extract_epochs_prune fuel T pr B = None).
+Proof.
+  exact (fun B T pr data fuel => conj (source_lookback_is_model B T pr data fuel)
+           (conj (source_prune_some pr fuel T B) (source_prune_none pr fuel T B))).
+Qed.
+Print Assumptions C05_source_prune.
+
+Theorem C05_source_lookback_refuted : exists B T pr data fuel,
+  (length pr + 1 < fuel)%nat /\
+  extract_epochs_lookback fuel T pr B data = None /\
+  prune B (T + zlen data) (pr ++ [(T, data)]) = [].
+Proof. exact source_lookback_is_model_refuted. Qed.
+Print Assumptions C05_source_lookback_refuted.
+
+(* the extractor starts where the model starts, and creates its captures as the model does; what it then sends to a
+   capture is the generated step *)
+Theorem C05_source_new_capture : forall k lo n rid slb data,
+  extract_epochs_tlb0 = tlb xinit /\ extract_epochs_prior_samples0 = prior xinit /\
+  abs (extract_epochs_new_capture lo n rid) = new_capture (mkreq k lo n rid) /\
+  wf_ce (extract_epochs_new_capture lo n rid) /\
+  view (capture_epoch_step (extract_epochs_new_capture lo n rid) slb data) =
+  Some (cap_send (new_capture (mkreq k lo n rid)) slb data).
+Proof.
+  exact (fun k lo n rid slb data =>
+           conj (proj1 source_extract_init) (conj (proj2 source_extract_init)
+             (conj (proj1 (source_new_capture k lo n rid)) (conj (proj2 (source_new_capture k lo n rid))
+               (source_send_new_capture k lo n rid slb data))))).
+Qed.
+Print Assumptions C05_source_new_capture.
+
+(* The hypotheses are satisfiable. *)
+Example C05_ex_source : wf_ce (capture_epoch_init 4 5 0 capture_epoch_default_auto_send) /\
+  source_capture_run (capture_epoch_init 4 5 0 capture_epoch_default_auto_send)
+    (tag 2 [[12;13;14]; []; [15]; [16;17;18;19]; [20;21]]) = [CNone; CNone; CNone; CData [14;15;16;17;18]] /\
+  extract_epochs_lookback 5 6 [(0, [28; 81]); (2, []); (2, [34; 81; 46; 38])] 7 [47; 12; 97; 69; 53] =
+  Some (11, [(2, [34; 81; 46; 38]); (6, [47; 12; 97; 69; 53])]).
+Proof. exact (conj (proj1 wf_ce_ex) (conj (proj1 source_capture_ex) source_lookback_ex)). Qed.
